@@ -227,6 +227,28 @@ class IdIndex(Index):
         elif operation == "delete":
             txn.delete(self.to_key(event.id))
 
+    @contextmanager
+    def scanner(
+        self,
+        txn,
+        matches: list,
+        since: typing.Optional[int] = None,
+        until: typing.Optional[int] = None,
+        events=FakeContainer(),
+    ):
+        # id keys carry no timestamp, so there is nothing to range-scan:
+        # look each id up directly; since/until are applied when the event is matched
+        def iterator():
+            for match in matches:
+                try:
+                    key = self.to_key(match)
+                except ValueError:
+                    continue
+                if txn.get(key) is not None and key[1:] in events:
+                    yield key[1:]
+
+        yield iterator()
+
 
 class CreatedIndex(Index):
     prefix = b"\x01"
